@@ -16,6 +16,7 @@ package sync
 import (
 	"fmt"
 	"os"
+	"slices"
 	"sort"
 	"testing"
 	"time"
@@ -48,6 +49,11 @@ func plans(thorough bool) []planT {
 	// hS: UB = {a:1} and UC = {a:1} at heights 6..7 (a shared inner node), UC changes at 8, UB dies at 9
 	// (a shared inner node under ONE parent); ua-shared-inner adds one under TWO different parents
 	hS := []string{"deploy-uc", "ub-a1", "uc-a1", "ua-shared-inner", "uc-a2", "ua-unshare", "u-storage2"}
+	// ext_init: StateRootInHeader off (storage-based mode only): the announced root can only be checked
+	// against the checkpoint / an earlier announcement; qw/tw announce a witnessed root
+	i2n := famT{Name: "single-i2-mtb2-nosrih", I: 2, MTB: 2, NoSRIH: true}
+	qw := q // default batches of 7 items; every other batch size is a deviation
+	qw.RootWitness, qw.ItemBatch = true, 7
 	if !thorough {
 		return []planT{
 			{i2, hA, []ptT{{7, 5}}, []string{"mpt"}, []string{"lo", "rdfs"}, q},
@@ -56,6 +62,10 @@ func plans(thorough bool) []planT {
 			{i2, hS, []ptT{{9, 5}}, []string{"mpt"}, []string{"bfs"}, q},
 			{i2, hS, []ptT{{7, 5}}, []string{"mpt"}, []string{"hi"}, q},
 			{i2, hA, []ptT{{7, 5}}, []string{"items"}, []string{"-"}, qi},
+			// (default batches of 3 resp. 7 items, other batch sizes are deviations: restarts at every 3rd / 7th
+			// position; all positions in thorough)
+			{i2n, hA, []ptT{{7, 5}}, []string{"items"}, []string{"-"}, q},
+			{i2n, hB, []ptT{{9, 0}}, []string{"items"}, []string{"-"}, qw},
 		}
 	}
 	t := profT{Budget: 1, Tail: 9, Sub: true, SubTrunc: true, RestartTip: true, AllBytes: true, ItemBatch: 3}
@@ -70,6 +80,9 @@ func plans(thorough bool) []planT {
 	i4 := famT{Name: "single-i4-mtb2", I: 4, MTB: 2, Pad: 3}
 	m2 := famT{Name: "multi-i2-mtb2", I: 2, MTB: 2, Multi: true}
 	all := []string{"lo", "hi", "dfs", "rdfs", "bfs"}
+	tw := ti
+	tw.RootWitness = true
+	i3n := famT{Name: "single-i3-mtb3-nosrih", I: 3, MTB: 3, Pad: 1, NoSRIH: true}
 	hD := []string{"fault-between", "caught-callee", "u-storage2", "gas-to-contract", "u-storage", "destroy-ub", "u-storage"}
 	hE := []string{"u-storage", "vote2+transfer", "policy-fee+tx", "u-storage2", "unvote1", "u-storage", "u-storage2", "vote1"}
 	return []planT{
@@ -87,6 +100,12 @@ func plans(thorough bool) []planT {
 		{i2, hA, []ptT{{9, 5}, {5, 0}}, []string{"items"}, []string{"-"}, ti},
 		{i2, hB, []ptT{{9, 5}}, []string{"items"}, []string{"-"}, ti},
 		{i3, hE, []ptT{{10, 7}}, []string{"items"}, []string{"-"}, ti},
+		{i2n, hA, []ptT{{7, 5}, {9, 5}, {5, 0}}, []string{"items"}, []string{"-"}, ti},
+		{i2n, hA, []ptT{{7, 5}}, []string{"items"}, []string{"-"}, ti2},
+		{i2n, hB, []ptT{{9, 0}, {9, 5}}, []string{"items"}, []string{"-"}, tw},
+		{i2n, hC, []ptT{{9, 7}}, []string{"items"}, []string{"-"}, tw},
+		{i3n, hE, []ptT{{10, 7}}, []string{"items"}, []string{"-"}, ti},
+		{i2, hB, []ptT{{9, 5}}, []string{"items"}, []string{"-"}, tw},
 	}
 }
 
@@ -115,8 +134,19 @@ func buildConfs(r *vk.Run, ps []planT) []*confT {
 				os.Exit(3)
 			}
 			for _, m := range p.modes {
+				if m != "items" && p.fam.NoSRIH {
+					fmt.Println("CHECK-ERROR: the MPT mode needs state roots in headers:", p.fam.Name)
+					os.Exit(3)
+				}
 				for _, o := range p.orders {
-					confs = append(confs, &confT{src: s, HInit: pt.H, P: P, Trust: pt.T, Mode: m, Order: o, prof: p.prof, trie: s.tries[P], items: s.items[P]})
+					c := &confT{src: s, HInit: pt.H, P: P, Trust: pt.T, Mode: m, Order: o, prof: p.prof, trie: s.tries[P], items: s.items[P]}
+					if m == "items" {
+						if _, err := c.prefixRoots(); err != nil {
+							fmt.Println("CHECK-ERROR:", c.name(), err)
+							os.Exit(3)
+						}
+					}
+					confs = append(confs, c)
 				}
 			}
 		}
@@ -134,7 +164,16 @@ func TestCheck(t *testing.T) {
 	}
 	r.SetSampleCap(8)
 	ps := plans(r.Thorough())
+	if os.Getenv("VERIF_ID") == "C02" {
+		// part `jump` of C02 (crash points of the state jump): the configurations
+		// without state roots in headers are about the announced root, a C20 matter
+		ps = slices.DeleteFunc(ps, func(p planT) bool { return p.fam.NoSRIH })
+	}
 	confs := buildConfs(r, ps)
+	confs, filtered := devFilter(confs)
+	if filtered {
+		r.Capped()
+	}
 	st := newStats(r)
 	x := newExplorer(r, st)
 	var cfgNames []string
@@ -145,6 +184,12 @@ func TestCheck(t *testing.T) {
 		trieInfo[fmt.Sprintf("%s/P%d", c.src.id, c.P)] = map[string]int{"trie_nodes": len(c.trie.Nodes), "nodes_on_several_paths": c.trie.Multi, "inner_nodes_on_several_paths": c.trie.MultiInner, "inner_nodes_with_two_parents": c.trie.MultiParent, "storage_items": len(c.items), "tip": int(c.src.tip)}
 	}
 	fmt.Printf("c20/sync: %d configurations, sources built in %.1fs\n", len(confs), r.Elapsed())
+	noSRIH := 0
+	for _, c := range confs {
+		if c.src.fam.NoSRIH {
+			noSRIH++
+		}
+	}
 	x.run(r.Workers())
 	multiFinal := 0
 	st.mu.Lock()
@@ -160,43 +205,57 @@ func TestCheck(t *testing.T) {
 	fmt.Printf("c20/sync: states=%d transitions=%d jobs=%d complete=%d merged=%d probes=%d rejected-with-error=%d restarts=%d crashes=%d crash-states=%d jumps=%d orders=%d stages=%d violations=%d (%.1fs)\n",
 		st.states.Get(), st.transitions.Get(), st.jobs.Get(), st.completed.Get(), st.merged.Get(), st.probes.Get(), st.rejected.Get(), st.restarts.Get(), st.crashes.Get(), st.crashStates.Len(), st.jumps.Get(), st.orders.Len(), st.stages.Len(), st.violations.Get(), r.Elapsed())
 	r.Finish(map[string]any{
-		"states":                                    int(st.states.Get()),
-		"transitions":                               int(st.transitions.Get()),
-		"traces_validated_against_impl":             int(st.jobs.Get()),
-		"complete_traces":                           int(st.completed.Get()),
-		"traces_merged_into_known_state":            int(st.merged.Get()),
-		"distinct_delivery_orders":                  st.orders.Len(),
-		"wrong_data_probes":                         int(st.probes.Get()),
-		"wrong_data_rejected_with_error":            int(st.rejected.Get()),
-		"restarts":                                  int(st.restarts.Get()),
-		"crash_points":                              int(st.crashes.Get()),
-		"distinct_crash_databases":                  st.crashStates.Len(),
-		"state_jumps":                               int(st.jumps.Get()),
-		"outdated_point_refusals":                   int(st.outdated.Get()),
-		"nodes_not_closable_after_panic":            int(st.leaked.Get()),
-		"distinct_stage_getter_vectors":             st.stages.Len(),
-		"configurations":                            cfgNames,
-		"tries":                                     trieInfo,
-		"distinct_final_databases_per_source_point": finals,
-		"bounds":                                    "per configuration: one default delivery order (lowest hash | highest hash | pre-order | reverse pre-order | level by level) + every trace with at most <budget> deviations from it (a deviation = another unknown node, a subtree answer, an all-unknown batch, a good+corrupted batch, another item batch size / wrong / omitted item, a header batch that stops short of the tip or overlaps, flush, restart, restart with the tip as peer height, crash at a batch prefix); on traces without other deviations additionally ALL header splits below the sync point, ALL item batch sizes and ALL node orders once at most <tail> trie nodes are missing; thorough adds budget 2 for flush/restart/crash on three configurations",
-		"events":                                    "hdr(k) / hdr(overlap), node(x) for every currently unknown x, sub(x[,3]) = (truncated) subtree answer of a peer, all(asc|desc), mix(good+corrupted), nodedup (a later duplicate MPT message when nothing is requested any more), items(k | bad | gap | redo), blk = Module.AddBlock(next), pblk = Blockchain.AddBlock(next) after the jump, flush, restart (same peer height | source tip), crash(i) = database cut after the i-th batch of the last event (every stage batch of the state jump included)",
-		"wrong_data_menu":                           "per new state (full menu on the default line and after a deviation, two rotating entries elsewhere): duplicate / far-ahead / gapped / 6 kinds of tampered headers / good+tampered batch; headers, nodes, blocks outside their stage; already restored node, valid node below an unknown one, nodes of the trie of another height, requested node with one byte changed (4 positions; all positions of short nodes in thorough), truncated, garbage; empty / duplicate item batch, wrong root or height for InitContractStorageSync; duplicate / next-but-one / far-ahead / 3 kinds of tampered blocks for Module.AddBlock, duplicate / next-but-one / 4 kinds of tampered blocks for Blockchain.AddBlock",
-		"final_oracle":                              "at the jump and after every restart on a jumped database: height, block hash, GetStateRoot, local root, full contract storage dump, committee, validators, policy, natives, contracts, candidates equal to the source at that height; traceable blocks and their transactions readable; the key-value pairs enumerated through the stored state trie equal to the source's; every later block accepted with an observation (incl. execution results) equal to the source's; at the tip again after flush + garbage collection and after a restart",
-		"state_key":                                 "stage getters (IsActive, IsInitialized, NeedHeaders, NeedStorageData, NeedBlocks), sync point, header height, block height, Module.BlockHeight, unknown-node set, digest of the raw database, restarts so far, peer height given to Init, last stored key and harness flags (items mode)",
+		"states":                                      int(st.states.Get()),
+		"transitions":                                 int(st.transitions.Get()),
+		"traces_validated_against_impl":               int(st.jobs.Get()),
+		"complete_traces":                             int(st.completed.Get()),
+		"traces_merged_into_known_state":              int(st.merged.Get()),
+		"distinct_delivery_orders":                    st.orders.Len(),
+		"wrong_data_probes":                           int(st.probes.Get()),
+		"wrong_data_rejected_with_error":              int(st.rejected.Get()),
+		"restarts":                                    int(st.restarts.Get()),
+		"crash_points":                                int(st.crashes.Get()),
+		"distinct_crash_databases":                    st.crashStates.Len(),
+		"state_jumps":                                 int(st.jumps.Get()),
+		"outdated_point_refusals":                     int(st.outdated.Get()),
+		"nodes_not_closable_after_panic":              int(st.leaked.Get()),
+		"distinct_stage_getter_vectors":               st.stages.Len(),
+		"root_announcements_genuine_events":           int(st.initEvents.Get()),
+		"root_announcement_probes":                    int(st.initProbes.Get()),
+		"root_announcement_probes_refused":            int(st.initRefused.Get()),
+		"root_announcement_kind_x_context":            st.initCtx.Len(),
+		"root_announcement_kinds_and_contexts":        st.initCtx.Sorted(),
+		"configurations_without_state_root_in_header": noSRIH,
+		"configurations":                              cfgNames,
+		"tries":                                       trieInfo,
+		"distinct_final_databases_per_source_point":   finals,
+		"bounds":          "per configuration: one default delivery order (lowest hash | highest hash | pre-order | reverse pre-order | level by level) + every trace with at most <budget> deviations from it (a deviation = another unknown node, a subtree answer, an all-unknown batch, a good+corrupted batch, another item batch size / wrong / omitted item, a header batch that stops short of the tip or overlaps, flush, restart, restart with the tip as peer height, crash at a batch prefix); on traces without other deviations additionally ALL header splits below the sync point, ALL item batch sizes and ALL node orders once at most <tail> trie nodes are missing; thorough adds budget 2 for flush/restart/crash on three configurations; storage-based mode also on chains without state roots in headers (left out when the package runs as part `jump` of C02), there with a plain and with a witnessed announced root",
+		"events":          "hdr(k) / hdr(overlap), node(x) for every currently unknown x, sub(x[,3]) = (truncated) subtree answer of a peer, all(asc|desc), mix(good+corrupted), nodedup (a later duplicate MPT message when nothing is requested any more), init = the state source announces the genuine root of the sync point (InitContractStorageSync; first event of the storage stage on every module instance, i.e. again after each restart/crash), items(k | bad | gap | redo), blk = Module.AddBlock(next), pblk = Blockchain.AddBlock(next) after the jump, flush, restart (same peer height | source tip), crash(i) = database cut after the i-th batch of the last event (every stage batch of the state jump included)",
+		"wrong_data_menu": "per new state (full menu on the default line and after a deviation, two rotating entries elsewhere): duplicate / far-ahead / gapped / 6 kinds of tampered headers / good+tampered batch; headers, nodes, blocks outside their stage; already restored node, valid node below an unknown one, nodes of the trie of another height, requested node with one byte changed (4 positions; all positions of short nodes in thorough), truncated, garbage; empty / duplicate item batch, wrong root or height for InitContractStorageSync; foreign announced roots wherever the node has a header, an earlier announcement or a loaded checkpoint to compare with (zero, root of all items but the last, root of the items stored so far = the checkpoint's intermediate root, root after the next default batch, roots of heights P-1 and P+1, genuine root under height P-1, previous sync point with its own root, witness with a foreign verification script): error required, state key unchanged, and the genuine root must still be accepted right afterwards; the genuine root announced again (must be accepted); announcements in the headers stage, the blocks stage and after the jump (nothing may change, foreign ones refused); duplicate / next-but-one / far-ahead / 3 kinds of tampered blocks for Module.AddBlock, duplicate / next-but-one / 4 kinds of tampered blocks for Blockchain.AddBlock",
+		"final_oracle":    "at the jump and after every restart on a jumped database: height, block hash, GetStateRoot, local root, full contract storage dump, committee, validators, policy, natives, contracts, candidates equal to the source at that height; traceable blocks and their transactions readable; the key-value pairs enumerated through the stored state trie equal to the source's; every later block accepted with an observation (incl. execution results) equal to the source's; at the tip again after flush + garbage collection and after a restart",
+		"state_key":       "stage getters (IsActive, IsInitialized, NeedHeaders, NeedStorageData, NeedBlocks), sync point, header height, block height, Module.BlockHeight, unknown-node set, digest of the raw database, restarts so far, peer height given to Init, last stored key and harness flags (items mode)",
 	}, []string{
 		"equal state keys have equal futures: the part of the state that is only in memory is represented by the header height, the unknown-node set (which, for a fixed source trie, determines the restored set), the module's block height and the item stream position; the digest covers the flushed part",
 		"a corrupted trie node has another hash and is therefore not a requested node: the module ignores it (documented in restoreNode) - the oracle demands 'error or ignored' and an unchanged state for node data, an error for corrupted headers/blocks",
 		"raw storage items carry no per-item hash: a wrong or omitted item is only detectable through the final root; the oracle demands that the sync never completes on a wrong root and completes correctly once the right items are delivered again",
 		"one PutChangeSet is atomic and durable (backend trusted, as C02 states); a crash loses exactly the unflushed memory layer",
 		"the peer height given to Init is the same after a restart, or the source's tip (restart-with-new-height)",
+		"without state roots in headers, without a checkpoint and without an earlier announcement on the module instance nothing identifies the right root: the first announcement of the state source is trusted and foreign roots are not offered in that state",
 	})
 }
 
 func replay(r *vk.Run) {
 	var c caseRec
-	if err := r.ReadReplay(&c); err != nil {
+	if _, err := os.Stat(r.Replay); err != nil {
 		fmt.Println("cannot read replay:", err)
 		os.Exit(3)
+	}
+	// A record of another part (of C20 or, for part `jump`, of C02) may use the
+	// same field names with other types: whatever does not decode as a
+	// state-sync case is somebody else's.
+	if err := r.ReadReplay(&c); err != nil {
+		fmt.Println("c20/sync: the replay file does not decode as a state-sync case:", err)
+		c = caseRec{}
 	}
 	if c.Fam.Name == "" || len(c.Names) == 0 || c.Mode == "" {
 		fmt.Println("c20/sync: the replay file is not a state-sync case (another part of C20 owns it); nothing to do")
